@@ -70,6 +70,8 @@ CLAIMED = {
             "Decides the validation tables: specifier atoms agree across Prolog, Rust decoder and encoder; priority bounds are 0..1200; ',' [] {} are refused and '|' restricted in both the atom and the list form; every '$op' is preceded by the validators; priority 0 removes and every reader of the table skips priority-0 entries; current_op's direct lookup needs all arguments bound; OpDecl::submit answers Ok only after writing and writes only after both halves of the infix/postfix exclusion were tested; the list form checks the exclusion for all names first; who writes the table without submit (three loader functions do: recorded known finding). Histories are not decided."),
     "C44": ("clause-table agreement (plread) between current_prolog_flag/2, set_prolog_flag/2 and the Rust getters/setters",
             "Decides that each flag is produced the same way when given and when enumerated (binding, not comparing), that read-only flags accept exactly their own value, that Prolog atoms, Rust setter atoms and getter atoms coincide and are mutually inverse, that bad values end in flag_value domain errors, that both predicates end with the flag/type error clauses, and that the occurs_check setters install objects reporting the set value and head unification honours the flag."),
+    "C45": ("effect summary and data flow of read_term_body / write_read_term_options over typed HIR; reachability from both readers",
+            "Decides the plumbing clause only: how variables/1, variable_names/1 and singletons/1 are derived from the term just read. The first-occurrence index of every variable is its position in an insertion-ordered table filled by one preorder traversal of the term; a second sighting clears the occurs-once flag; variables/1 and variable_names/1 are both built from the variable list sorted ascending by that index, variable_names/1 leaving out only the anonymous variable; singletons/1 keeps the non-anonymous variables whose flag is still set (so _-prefixed ones are included); both readers bind the options through this function. What the parser puts into the term and the traversal order of the iterator are not decided."),
     "C50": ("sibling agreement of in-memory and stream read/write paths over typed HIR and the call graph",
             "Decides the shared-core clause: write_term and write_term_to_chars take their printer from the same constructor with the same operator table; stream and from-chars readers use the same parser entry, operator source, heap writer and option writers on success and on end of input; the names write_term_to_chars/3 fabricates for unnamed variables are distinct (one radix for letter and suffix, counter advanced past the name taken). Equality of results beyond sharing is not decided."),
     "C55": ("printer/lexer character-class agreement from macro-expansion origins; special-case tables",
@@ -92,7 +94,6 @@ NA = {
     "C40": "inference counts at run time and monotonicity in the limit",
     "C41": "JSON parser/generator written in Prolog; round-trip equality is value-level",
     "C42": "which definition answers a call over all module layouts (loader run-time state)",
-    "C45": "contents and order of run-time variable dictionaries",
     "C46": "BDD semantics of clp(B) in Prolog",
     "C47": "lazy vs. eager parsing equality over buffer boundaries: run-time values",
     "C48": "agreement with the operating system's file system",
